@@ -284,7 +284,14 @@ pub fn check_reject(c: &RejectCase, obs: &mut Obs) -> Verdict {
     let Some(msg) = &tool.err else { return Verdict::Fail(format!("history of {sec} contains a listed cause ({:?}, planted: {}) but was accepted\n{csv}", me.cause, c.cause)); };
     // the tool may stop earlier than the planted row for a recorded rounding-residue reason
     let base_rows: Vec<HRow> = case.rows.iter().enumerate().filter(|(i, r)| *i != c.planted_ix && &r.sec == sec).map(|(_, r)| r.clone()).collect();
-    let base_model = model_for(&base_rows, case.opening_for(sec));
+    let mut base_model = model_for(&base_rows, case.opening_for(sec));
+    // a planted sale with a contradicting declared amount is itself a sale the look-ahead of an earlier loss sale sees: whether it
+    // empties a holding exactly (the R1b signature) is read off the history with the declaration taken out
+    if matches!(me.cause, Cause::SflMismatch | Cause::SflOnNonLoss) {
+        let undeclared: Vec<HRow> = case.rows.iter().enumerate().filter(|(_, r)| &r.sec == sec).map(|(i, r)| { let mut r = r.clone(); if i == c.planted_ix { r.sfl.clear(); } r }).collect();
+        let m2 = model_for(&undeclared, case.opening_for(sec));
+        if m2.err.is_none() { base_model = m2; }
+    }
     if let Some(id) = residue_class(&sec_rows, &MResult { rows: base_model.rows.clone(), err: None }, msg) {
         let planted_msg = match me.cause { Cause::OverSale | Cause::OverSaleSeenFromWindow { .. } => msg.contains(&offending.td.to_string()) && (msg.contains(&format!(" of {} shares", offending.shares)) || msg.contains("30-day period")), Cause::RocExceedsAcb => msg.contains("Invalid RoC") && msg.contains(&offending.td.to_string()), Cause::FractionalReverseSplit => msg.contains("non-integer") && msg.contains(&offending.td.to_string()), _ => false };
         if !planted_msg { return known_or_fail(id, format!("{sec} is rejected before the planted row for a rounding-residue reason: {msg}\n{csv}")); }
